@@ -58,11 +58,17 @@ def format(sql, encoding=None, **options):
     stack.postprocess.append(filters.SerializerUnicode())
     result = []
     for text in stack.run(sql, encoding):
+        if not text:
+            continue
         # Statements are joined without separator. That is fine after ';',
         # but a statement ending with the batch separator GO (a word) must
-        # not run into the first word of the next statement.
-        if (result and text and result[-1][-1:].isalnum()
-                and (text[:1].isalnum() or text[:1] == '_')):
+        # not run into the next statement ('GOselect', 'GO(' are names), and
+        # a statement starting with a single-line comment must not become
+        # the trailing comment of the previous one.
+        if result and not text[:1].isspace() and (
+                result[-1][-1:].isalnum()
+                or (text.startswith(('--', '#'))
+                    and not result[-1].endswith('\n'))):
             result.append('\n')
         result.append(text)
     return ''.join(result)
